@@ -26,6 +26,10 @@ func zzH_STRc() {
 	ending := vChoose("ending", 3) // 0: client closes the stream, 1: peer EOF, 2: client closes the connection
 	opened := false
 	var st Stream
+	// strict: the environment lets the client settle before the stream/connection ends, so every
+	// message pushed must have been delivered; otherwise (the end follows the last push at once) only
+	// freedom from hanging is asserted
+	strict := true
 	vGo("opener", func() {
 		var err error
 		st, err = conn.NewStream("S.Watch")
@@ -34,7 +38,7 @@ func zzH_STRc() {
 			return
 		}
 		opened = true
-		for i := 0; i < N+1; i++ {
+		for i := 0; i < N+2; i++ {
 			var msg []byte
 			e := st.ReadMessage(nil, &msg)
 			gotErr = append(gotErr, e)
@@ -45,8 +49,12 @@ func zzH_STRc() {
 		}
 		// after shutdown every later operation fails with ErrStreamShutdown
 		var msg []byte
-		vAssert(st.ReadMessage(nil, &msg) == ErrStreamShutdown, "read-after-shutdown")
-		vAssert(st.WriteMessage(&msg) == ErrStreamShutdown, "write-after-shutdown")
+		e1 := st.ReadMessage(nil, &msg)
+		e2 := st.WriteMessage(&msg)
+		if strict {
+			vAssert(e1 == ErrStreamShutdown, "read-after-shutdown")
+			vAssert(e2 == ErrStreamShutdown, "write-after-shutdown")
+		}
 	})
 	f := <-m.out
 	var open pbRequest
@@ -59,7 +67,30 @@ func zzH_STRc() {
 	for i := 0; i < N; i++ {
 		m.deliver(zzResponse(open.Seq, "", sent[i]))
 	}
-	vQuiesce()
+	var extra []byte
+	paused := vChoose("pause-before-end", 2) == 1
+	if ending == 0 {
+		paused = true
+	}
+	strict = paused
+	if paused {
+		vQuiesce()
+	} else if ending == 0 {
+		vQuiesce() // the client needs the stream handle before it can close it
+	}
+	if st != nil && vParam("str.badwrite", 1) == 1 && vChoose("bad-write", 2) == 1 {
+		// a stream message that cannot be encoded: the write fails inside WriteRequest, the stream
+		// and the connection stay up
+		st.WriteMessage(42)
+		vQuiesce()
+		good := []byte{0x77}
+		st.WriteMessage(&good)
+		vQuiesce()
+		// the failed write must not cut the stream's receive direction either
+		extra = vBytesN("extra", 2)
+		m.deliver(zzResponse(open.Seq, "", extra))
+		vQuiesce()
+	}
 	switch ending {
 	case 0:
 		// the opener is blocked in its (N+1)th ReadMessage; a client-side Close must unblock it
@@ -70,9 +101,16 @@ func zzH_STRc() {
 				closeErr = st.Close()
 				closed = true
 			})
-			f := <-m.out
 			var cl pbRequest
-			cl.Unmarshal(f)
+			for {
+				f := <-m.out
+				cl = pbRequest{}
+				cl.Unmarshal(f)
+				if len(cl.Upgrade) == 1 && cl.Upgrade[0] == zzUpgStreaming {
+					continue // the good stream message written above
+				}
+				break
+			}
 			vAssert(len(cl.Upgrade) == 1 && cl.Upgrade[0] == zzUpgCloseStream && cl.Seq == open.Seq, "close-request-flags")
 			m.deliver(zzResponse(cl.Seq, "", nil))
 			vQuiesce()
@@ -96,13 +134,21 @@ func zzH_STRc() {
 		conn.Close()
 	}
 	vAtEnd(func() {
-		vAssert(openErr == nil && opened, "stream-opened")
 		vAssert(vBlocked() == 0, "reader-unblocked")
+		if !strict {
+			vReach("end")
+			return
+		}
+		vAssert(openErr == nil && opened, "stream-opened")
 		if ending != 0 {
 			vAssert(len(gotErr) > 0 && gotErr[len(gotErr)-1] == ErrStreamShutdown, "blocked-read-returns-shutdown")
 		}
 		// every message that was delivered is the one that was sent, in order, none lost
-		vAssert(len(got) == N, "all-messages-delivered")
+		if extra != nil {
+			vAssert(len(got) == N+1 && vEqBytes(got[N], extra), "message-after-failed-write-delivered")
+		} else {
+			vAssert(len(got) == N, "all-messages-delivered")
+		}
 		for i := 0; i < len(got) && i < N; i++ {
 			vAssert(vEqBytes(got[i], sent[i]), "messages-in-order-unmodified")
 		}
@@ -119,7 +165,8 @@ func zzH_STRs() {
 	log := &zzLog{}
 	poll := vChoose("poll", 2) == 1
 	directIO := vChoose("directIO", 2) == 1
-	s, svc := zzNewServer(log, false, directIO, false, false)
+	noCopy := vParam("str.nocopy", 1) == 1 && vChoose("noCopy", 2) == 1
+	s, svc := zzNewServer(log, false, directIO, noCopy, false)
 	s.poll = poll
 	out := make([][]byte, W)
 	for i := range out {
